@@ -37,6 +37,7 @@ IsStep(r) == r.a # "final"
 NAllocEv(r) == Cardinality({k \in 1..Len(r.o.base) : r.o.base[k][1] = "alloc"})
 Ok(r) == r.o.res = "ok"
 AllocLike(r) == r.a \in {"alloc", "grow", "shrink"}
+VecStep(r) == r.a \in {"vec_new", "vec_extend", "vec_shrink", "vec_truncate", "vec_drop", "vec_into"} /\ r.o.res # "skipped"
 
 SumOf(sq, F(_)) == LET RECURSIVE S(_) S(i) == IF i = 0 THEN 0 ELSE F(sq[i]) + S(i - 1) IN S(Len(sq))
 
@@ -69,8 +70,9 @@ InResult(r, lo, hi) == AllocLike(r) /\ Ok(r) /\ lo >= r.o.addr /\ hi <= r.o.addr
 \* the result block's bounds
 WriteOk(r, cs, w) ==
     LET lo == w[1]  hi == w[2] IN
-    IF AllocLike(r) /\ Ok(r)
-    THEN LET a == r.o.addr  e == r.o.addr + r.args.sz
+    IF (AllocLike(r) /\ Ok(r)) \/ (VecStep(r) /\ Has(r.o, "wlo"))
+    THEN LET a == IF VecStep(r) THEN r.o.wlo ELSE r.o.addr
+             e == IF VecStep(r) THEN r.o.whi ELSE r.o.addr + r.args.sz
              \* part below the block, inside the block, above the block
              p1ok == (lo >= a) \/ InHeader(cs, r.cfg.up, lo, IF hi < a THEN hi ELSE a)
              p3ok == (hi <= e) \/ InHeader(cs, r.cfg.up, IF lo > e THEN lo ELSE e, hi)
@@ -80,12 +82,14 @@ WriteOk(r, cs, w) ==
 \* while an exclusive-borrow collection is filled it writes its elements into the prepared free range; finalising moves
 \* them to the bump side of that range: these steps may write anywhere inside the content range of the current chunk
 \* (header included: a write range may straddle both) that is not a live block (live blocks are covered by the damage check)
-PrepWrite(r) == r.a \in {"prep_push", "prep_reserve", "prep_commit", "iter_mut", "try_with"}   \* (alloc_try_with constructs the Result in free space first)
+PrepWrite(r) == r.a \in {"prep_push", "prep_reserve", "prep_extend", "prep_commit", "iter_mut", "fmt_mut", "try_with"}   \* (alloc_try_with constructs the Result in free space first)
 InChunk(cs, lo, hi) == \E i \in 1..Len(cs) : lo >= cs[i].start /\ hi <= cs[i].start + cs[i].size
 
 C02_Viol(r) ==
     LET cs == Chunks(r.o) IN
     \/ r.o.damaged # <<>>                                             \* a live block's bytes changed
+    \/ Has(r.o, "vbad") /\ r.o.vbad # <<>>                             \* a live vector no longer holds its elements
+    \/ r.a = "vec_into" /\ Ok(r) /\ ~r.o.content_ok                   \* the finalised slice is not the vector's contents
     \/ Has(r.o, "prefix_ok") /\ ~r.o.prefix_ok                         \* realloc lost the surviving prefix
     \/ Has(r.o, "zero_ok") /\ ~r.o.zero_ok                             \* zeroed memory is not zero
     \/ IsStep(r) /\ r.a # "drop" /\ ~PrepWrite(r) /\ \E k \in 1..Len(r.o.writes) : ~WriteOk(r, cs, r.o.writes[k])
@@ -128,7 +132,7 @@ C03_Again(r) ==
 (***************************************************************************)
 BaseEvs(r) == r.o.base
 MayRelease(r) == r.a \in {"reset", "drop", "final"} \/ (r.a = "with_settings" /\ r.o.res = "panic")
-MayAcquire(r) == r.a \in {"ctor", "alloc", "grow", "shrink", "reserve", "enter", "prep_push", "prep_reserve", "iter_mut", "try_with"} \* enter: by_value / claim on unallocated
+MayAcquire(r) == r.a \in {"ctor", "alloc", "grow", "shrink", "reserve", "enter", "prep_push", "prep_reserve", "prep_extend", "iter_mut", "fmt_mut", "try_with", "vec_new", "vec_extend"} \* enter: by_value / claim on unallocated
 FreeOk(gs, ev) ==
     \E g \in 1..Len(gs) : /\ gs[g].addr = ev[2] /\ ~gs[g].live /\ gs[g].frees = 1
                           /\ gs[g].align = ev[4] /\ ev[3] >= gs[g].req /\ ev[3] <= gs[g].size
@@ -179,7 +183,7 @@ C10_Viol(r) ==
 (***************************************************************************)
 C12_Viol(r) ==
     IsStep(r) /\
-    \/ NAllocEv(r) > 1 /\ r.a # "iter_mut"                                      \* at most one chunk per request (the one-shot
+    \/ NAllocEv(r) > 1 /\ r.a \notin {"iter_mut", "fmt_mut"}                                      \* at most one chunk per request (the one-shot
                                                                                 \* helper is a whole fill: several requests)
     \/ AllocLike(r) /\ Ok(r) /\ NAllocEv(r) = 1 /\
          LET ev == CHOOSE k \in 1..Len(r.o.base) : r.o.base[k][1] = "alloc" IN
@@ -192,6 +196,7 @@ C12_Viol(r) ==
 MayDecrease(r) ==
     \/ r.a \in {"exit", "guard_reset", "reset_to", "reset", "reset_to_start", "drop", "final"}
     \/ r.a \in {"dealloc", "grow", "shrink"} /\ r.exp.x.wastop
+    \/ r.a \in {"vec_extend", "vec_shrink", "vec_drop", "vec_into"} /\ r.exp.x.wastop     \* "... or by a collection doing so"
 ChunkOf(cs, addr) == CHOOSE i \in 1..Len(cs) : addr >= cs[i].lo /\ addr <= cs[i].hi
 C13_Viol(r) ==
     IsStep(r) /\ r.a # "ctor" /\
@@ -208,6 +213,13 @@ C13_Viol(r) ==
             (\E i \in 1..Len(cs) : r.o.oaddr >= cs[i].lo /\ r.o.oaddr + r.args.sz <= cs[i].hi) /\ r.o.addr # r.o.oaddr
     \* any other deallocate reclaims nothing
     \/ r.a = "dealloc" /\ ~r.exp.x.wastop /\ r.o.stats[4] # r.o.pa
+    \* the same through a growable vector: dropping it deallocates, shrink_to_fit / into_boxed_slice shrink, growth grows
+    \/ r.a = "vec_drop" /\ VecStep(r) /\ (r.exp.x.optout \/ ~r.exp.x.wastop) /\ r.o.stats[4] # r.o.pa
+    \/ r.a \in {"vec_shrink", "vec_into"} /\ VecStep(r) /\ r.exp.x.optout /\ r.o.stats[4] < r.o.pa
+    \/ r.a = "vec_extend" /\ VecStep(r) /\ Ok(r) /\ r.args.grows /\ r.args.osz > 0 /\ r.cfg.up /\ r.exp.x.waslast
+         /\ r.args.osz % r.o.ma = 0 /\ r.o.oaddr % r.o.ma = 0
+         /\ LET cs == Chunks(r.o) IN
+            (\E i \in 1..Len(cs) : r.o.oaddr >= cs[i].lo /\ r.o.oaddr + r.args.ncap * r.args.esz <= cs[i].hi) /\ r.o.vaddr # r.o.oaddr
 
 (***************************************************************************)
 (* C07  allocation failure is an error and leaves the arena working        *)
@@ -218,6 +230,8 @@ C07_Viol(r) ==
     \* the base allocator refused / the size computation overflows: an error, never success, never a panic of a try_ / allocator call
     \/ ScriptedFail(r) /\ (r.o.res = "ok" \/ (r.v # "panicking" /\ r.o.res # "err"))
     \/ r.a = "alloc_huge" /\ (r.o.res = "ok" \/ (r.v # "panicking" /\ r.o.res # "err"))
+    \* a vector whose growth failed is unchanged (same buffer, length, capacity; its elements are covered by C02 below)
+    \/ r.a = "vec_extend" /\ VecStep(r) /\ r.o.res = "err" /\ (r.o.vaddr # r.o.oaddr \/ r.o.vlen # r.o.plen \/ r.o.vcap # r.o.pcap)
     \* after a failure: earlier allocations intact, invariants hold, nothing leaked or released twice ...
     \/ (r.exp.fails > 0 \/ r.a = "alloc_huge") /\ (C01_Viol(r) \/ C02_Viol(r) \/ C05_Viol(r) \/ C10_Viol(r))
     \* ... and the arena keeps working: a later request that the model can serve is served
@@ -265,7 +279,7 @@ C18_Viol(r) ==
 (* C15  exclusive-borrow collections use free space without moving the     *)
 (*      pointer; finalising advances it by the contents plus padding       *)
 (***************************************************************************)
-PrepFill(r) == (r.a = "enter" /\ r.args.kind = "prep") \/ r.a \in {"prep_push", "prep_reserve", "prep_drop"}
+PrepFill(r) == (r.a = "enter" /\ r.args.kind = "prep") \/ r.a \in {"prep_push", "prep_reserve", "prep_extend", "prep_drop"}
 Abs(x) == IF x < 0 THEN 0 - x ELSE x
 C15_Viol(r) ==
     \/ PrepFill(r) /\ Has(r.o, "echunks") /\
@@ -289,6 +303,15 @@ C15_Viol(r) ==
          \/ r.o.damaged # <<>>
     \* the one-shot helpers alloc_iter_mut(_rev): exactly the yielded elements (reversed for rev) whatever the size hint said;
     \* the position advances by the contents plus padding -- in the chunk that was current, or in a later chunk that was empty
+    \* alloc_fmt_mut / alloc_cstr_fmt_mut: exactly the written text (plus one NUL), position advanced by it plus padding
+    \/ r.a = "fmt_mut" /\
+         \/ r.o.res # "ok" \/ ~r.o.content_ok \/ r.o.len # r.exp.x.len \/ r.o.damaged # <<>>
+         \/ r.o.len > 0 /\ r.o.cur # 0 /\
+              LET c == r.o.chunks[r.o.cur]
+                  adv == IF r.o.pp[1] = c[1] THEN Abs(c[5] - r.o.pp[2]) ELSE c[6]
+              IN adv < r.o.len \/ adv > r.o.len + (r.o.ma - 1)
+         \/ r.o.pp[1] # 0 /\ \E k \in 1..Len(r.o.chunks) :
+              r.o.chunks[k][1] = r.o.pp[1] /\ k # r.o.cur /\ r.o.chunks[k][5] # r.o.pp[2]
     \/ r.a = "iter_mut" /\
          \/ r.o.res # "ok" \/ ~r.o.content_ok \/ r.o.len # r.args.n * r.args.esz
          \/ r.o.damaged # <<>>
@@ -318,6 +341,10 @@ Drift(r) ==
     IsStep(r) /\
     \/ r.o.res # r.exp.res
     \/ AllocLike(r) /\ Ok(r) /\ r.o.addr # r.exp.addr
+    \/ r.a \in {"vec_new", "vec_extend", "vec_shrink", "vec_truncate"} /\ VecStep(r) /\ Has(r.o, "vlen") /\
+         (r.o.vlen # r.exp.x.len \/ r.o.vcap # r.exp.x.cap \/ (r.o.vcap > 0 /\ r.o.vaddr # r.exp.addr))
+    \/ r.a = "vec_into" /\ Ok(r) /\ (r.o.addr # r.exp.addr \/ r.o.len # r.exp.x.len * r.o.vesz)
+    \/ VecStep(r) /\ r.o.res = "skipped"
     \/ r.a # "drop" /\ (r.o.cur # r.exp.cur \/ r.o.stats[4] # r.exp.allocated \/ r.o.stats[1] # r.exp.count
                         \/ (r.o.cur # 0 /\ r.o.chunks[r.o.cur][5] # r.exp.pos)
                         \/ Len(r.o.chunks) # r.exp.nchunks)
@@ -352,6 +379,10 @@ Init == /\ done = TRUE
         /\ PrintT(<<"N_EXIT", Cardinality({i \in Idx : IsExit(Rec[i])})>>)
         /\ PrintT(<<"N_REALLOC", Cardinality({i \in Idx : AllocLike(Rec[i]) /\ Rec[i].a # "alloc" /\ Ok(Rec[i])})>>)
         /\ PrintT(<<"N_NEWCHUNK", Cardinality({i \in Idx : IsStep(Rec[i]) /\ NAllocEv(Rec[i]) = 1})>>)
+        /\ PrintT(<<"N_VEC", Cardinality({i \in Idx : VecStep(Rec[i])})>>)
+        /\ PrintT(<<"N_VEC_RELOC", Cardinality({i \in Idx : Rec[i].a = "vec_extend" /\ VecStep(Rec[i]) /\ Rec[i].o.res = "ok" /\ Rec[i].o.oaddr # 0
+                                                          /\ Rec[i].o.vaddr # Rec[i].o.oaddr})>>)
+        /\ PrintT(<<"ABORTED", {i \in Idx : Rec[i].a = "final" /\ Has(Rec[i].o, "aborted")}>>)
         /\ PrintT(<<"N_RECLAIM", Cardinality({i \in Idx : Rec[i].a = "dealloc" /\ Rec[i].o.stats[4] < Rec[i].o.pa})>>)
 Next == UNCHANGED done
 Spec == Init /\ [][Next]_done
